@@ -727,6 +727,8 @@ static void case_direct(vf_rng *r)
 	char d[200];
 	int bound = vf_chance(r, 1, 2), wild = vf_chance(r, 1, 5);
 
+	memset(&a, 0, sizeof(a));   /* padding goes into the case fingerprint */
+
 	a.len = pick_count(r);
 	if (vf_chance(r, 1, 30)) a.len = vf_chance(r, 1, 2) ? UINT32_MAX : (uint32_t) INT32_MAX + vf_below(r, 3);
 	a.a = pick_num(r, wild); a.b = pick_num(r, wild); a.c = pick_num(r, wild);
